@@ -1,7 +1,7 @@
 """C01 — every multiplication route computes exactly A*B (or C + A*B)."""
 import engine
 
-OPS = ["mul_naive", "addmul_naive", "mul_va", "mul_m4rm", "addmul_m4rm", "mul", "addmul", "djb"]
+OPS = ["mul_naive", "addmul_naive", "_mul_naive", "mul_va", "mul_m4rm", "addmul_m4rm", "mul", "addmul", "djb"]
 PROOFS = ["Properties_C01a", "Properties_C01b", "Properties_C01c"]
 
 
@@ -19,6 +19,11 @@ def run(res, tier, seed):
     import vlib, corr
     small = corr.Runner(vlib.variant(name="small", **vlib.SMALL))
     engine.run_ops(res, "C01", OPS, seed + 1, n // 2, 300 if tier == "quick" else 700, runner=small, tag="/cfg=small")
+    # operands as views into wider matrices holding other data (the factors alone, the destination alone, all): a route
+    # that reads whole words of a factor sees the parent's bits beyond the last column
+    for k, sub in enumerate((("A",), ("B",), ("A", "B"), ("A", "B", "C"))):
+        W = (lambda sub: (lambda role: {"fill": "rand"} if role in sub or (role == "V" and "B" in sub) else None))(sub)
+        engine.run_ops(res, "C01", OPS, seed + 20 + k, max(4, n // 10), 150, W=W, tag="/win=" + "+".join(sub))
     # Tier B: the algorithm-faithful models (naive / M4RM / Strassen with the regenerated schedules / DJB / make_table) run
     # with the constants of the build under test; tables and the DJB op list compared bit for bit
     from props import tierb
